@@ -2,6 +2,7 @@ import OrsoVerif.Model.Wire
 import OrsoVerif.Drv.C02
 import OrsoVerif.Drv.C03
 import OrsoVerif.Drv.C04
+import OrsoVerif.Drv.C05
 
 open Wire
 
@@ -10,6 +11,7 @@ def dispatch (prop op : String) (args : List PyVal) : Option (List PyVal) :=
   | "C02" => Drv.C02.handle op args
   | "C03" => Drv.C03.handle op args
   | "C04" => Drv.C04.handle op args
+  | "C05" => Drv.C05.handle op args
   | _ => none
 
 def handle (toks : List String) : String :=
